@@ -168,3 +168,36 @@ impl Gates {
         self.m.lock().unwrap().progress
     }
 }
+
+// ---------------------------------------------------------------------------------------------------------
+// canonical text for tracker records (shared by `sched c05` and `batch`)
+
+pub fn opt_bits(x: Option<f32>) -> String {
+    x.map(|v| v.to_bits().to_string()).unwrap_or("n".into())
+}
+
+pub fn enc_ubox(b: &similari::prelude::Universal2DBox) -> String {
+    format!(
+        "{}.{}.{}.{}.{}.{}",
+        b.xc.to_bits(),
+        b.yc.to_bits(),
+        opt_bits(b.angle),
+        b.aspect.to_bits(),
+        b.height.to_bits(),
+        b.confidence.to_bits()
+    )
+}
+
+pub fn enc_sort_track(t: &similari::prelude::SortTrack) -> String {
+    format!(
+        "{},{},{},{},{},{:?},{},{}",
+        t.id,
+        t.epoch,
+        t.length,
+        t.custom_object_id.map(|c| c.to_string()).unwrap_or("n".into()),
+        t.scene_id,
+        t.voting_type,
+        enc_ubox(&t.observed_bbox),
+        enc_ubox(&t.predicted_bbox)
+    )
+}
